@@ -114,6 +114,8 @@ def aq_drop(ctx):
     if not fn:
         return [undecided('AQ-drop', 'anchor', 'impl Drop for ActiveQueue not found')]
     P = ctx.proto
+    from .rules_proto import _problems
+    out = _problems(ctx, 'AQ-drop')
     writes = set()
     for fname, _, snaps in events_of(P, 'write'):
         if fname.startswith(AQ_DROP):
